@@ -97,6 +97,7 @@ func c01Specs(tier string) []*XSpec {
 			al := quickAlpha
 			if c.CheckVHash {
 				al = append(append([]Op{}, quickAlpha...), perKey(keys, Op{K: "set", V: "hA"}, Op{K: "set", V: "hB"})...)
+				al = append(al, Op{K: "set", V: "vh0", Key: "a"}, Op{K: "setsame", Key: "a", Rev: -2})
 			}
 			specs = append(specs, &XSpec{Property: "C01", Name: c.Name, Cfg: c, Alphabet: al, Depth: 4, Keys: keys, Exec: c01Exec})
 		}
@@ -108,8 +109,10 @@ func c01Specs(tier string) []*XSpec {
 			Op{K: "set", V: "s", Flag: 0x10},
 			Op{K: "setsame", Rev: 3},
 			Op{K: "setsame", Rev: -1},
+			Op{K: "setsame", Rev: -2},
+			Op{K: "set", V: "s", Rev: -2},
 			Op{K: "setsame", Flag: 0x10},
-			Op{K: "set", V: "hA"}, Op{K: "set", V: "hB"},
+			Op{K: "set", V: "hA"}, Op{K: "set", V: "hB"}, Op{K: "set", V: "vh0"},
 		)...)
 		full = append(full, Op{K: "flushp"})
 		for _, c := range []*store.VerifCfg{cfgK1(), cfgK16(), cfgK256()} {
